@@ -125,12 +125,12 @@ def _colliders(rng, idx):
     kA = O.KINDS[idx % 10]; kB = O.KINDS[(idx // 10) % 10]
     sA, sB, cls, truth = pairs.make_pair(rng, kA, kB, margin_p=0.1, class_p=CLASS_P)
     # keep the base scene near the origin so that moved / scaled variants stay inside the domain
-    oA, oB, L0 = pairs.scene(sA, sB)
+    oA, oB, L0 = pairs.scene(sA, sB, k=1e-5)
     shift = -oA.center() + rng.normal(size=3)
     sA = O.translated(sA, shift); sB = sA if sB is sA else O.translated(sB, shift)
     if truth.get("common") is not None:
         truth = dict(truth, common=truth["common"] + shift)
-    oA, oB, L0 = pairs.scene(sA, sB)
+    oA, oB, L0 = pairs.scene(sA, sB, k=1e-5)
     centres = [oA.center(), oB.center()]
     G = _pick_motion(rng, centres)
     sc = _pick_scale(rng, _feature_range(sA) + _feature_range(sB), centres)
@@ -154,7 +154,7 @@ def _colliders(rng, idx):
     for vname, (vA, vB, Gv, s, swapped) in variants.items():
         if vA is vB and not (sA is sB):
             pass
-        oa, ob, Lv = pairs.scene(vA, vB)
+        oa, ob, Lv = pairs.scene(vA, vB, k=1e-5)
         var = _queries(vA, vB, True)
         key0 = {"variant": vname, "cls": cls.split("+")[0]}
 
